@@ -45,6 +45,9 @@ type Ctx struct {
 	FuncsSeen map[string]bool
 	CallSites int
 	keys      map[string]int
+	// Importing: the rule sets being evaluated on behalf of this context's property (importObligations); a rule
+	// set that imports from one that imports from it is evaluated without that inner import
+	Importing map[uintptr]bool
 }
 
 func NewCtx(p *Prog, property string) *Ctx {
